@@ -24,6 +24,7 @@ mod repo;
 mod update;
 mod roundtrip;
 mod cache;
+mod rootcli;
 
 pub fn kp() -> Ed25519KeyPair {
     let doc = Ed25519KeyPair::generate_pkcs8(&SystemRandom::new()).unwrap();
@@ -133,6 +134,8 @@ async fn main() {
         "save_targets" => save::op_save_targets(sc).await,
         "filenames" => names::op_filenames(sc),
         "cache_roles" => names::op_cache_roles(sc).await,
+        "gen_keyfiles" => rootcli::op_gen_keyfiles(sc),
+        "root_check" => rootcli::op_root_check(sc),
         "cache_roundtrip" => cache::op_cache_roundtrip(sc).await,
         "editor_roundtrip" => roundtrip::op_editor_roundtrip(sc).await,
         "update_preserves" => update::op_update_preserves(sc).await,
